@@ -168,7 +168,18 @@ func (x *TExec) opConnect(st *TStep) { //nolint:cyclop
 	x.w.gen.mu.Lock()
 	connCalls := len(x.w.gen.conns)
 	x.w.gen.mu.Unlock()
+	if st.N > 0 {
+		x.w.gen.mu.Lock()
+		x.w.gen.dialDelay = time.Duration(st.N) * time.Second
+		x.w.gen.mu.Unlock()
+		x.waitS = st.N + 2
+		x.St.inc("tcp:connect-slow-dial")
+	}
 	resp, _ := x.request(c, c.ctrl, &c.rbuf, ui, m)
+	x.waitS = 0
+	x.w.gen.mu.Lock()
+	x.w.gen.dialDelay = 0
+	x.w.gen.mu.Unlock()
 	if x.stop {
 		return
 	}
@@ -244,7 +255,17 @@ func (x *TExec) opConnect(st *TStep) { //nolint:cyclop
 
 		return
 	}
-	a.conns = append(a.conns, &tConn{id: id, peer: p, deadline: t0.Add(30 * time.Second), srvEnd: pe.Peer(), peerEnd: pe})
+	// the bind deadline runs from the moment the connection is registered (after the dial)
+	treg := t0
+	if st.N > 0 {
+		treg = t0.Add(time.Duration(st.N)*time.Second + 400*time.Millisecond) // when the dial completed
+	}
+	tc := &tConn{id: id, peer: p, deadline: treg.Add(30 * time.Second), srvEnd: pe.Peer(), peerEnd: pe}
+	if !treg.Before(a.deadline) {
+		tc.orphan = true // the allocation expired while the dial was in flight
+		x.St.inc("tcp:connect-outlives-allocation")
+	}
+	a.conns = append(a.conns, tc)
 	x.St.inc("tcp:connect-success")
 }
 
